@@ -10,7 +10,9 @@ import traceback
 
 import z3
 
-from . import core
+sys.set_int_max_str_digits(0)
+
+from . import core, ratnorm
 from .core import Abort, Ctx, Infeasible, Reject, Sym, SymBool
 
 REPO_PREFIX = os.path.realpath(os.environ.get("ARMI_REPO", "/repo")) + os.sep
@@ -185,7 +187,7 @@ class Result:
         self.d = dict(
             property=h.prop, harness=h.name, params=params, tier=tier, bounds=h.bounds, stubs=h.stubs,
             outside=h.outside, paths=0, paths_nontrivial=0, exhaustive=False, aborted=[], obligations=0, discharged=0,
-            trivial=0, inconclusive=[], violations=[], known=[], harness_errors=[], queries=0, solver_s=0.0,
+            trivial=0, normalised_identities=0, exact_identities=0, inconclusive=[], violations=[], known=[], harness_errors=[], queries=0, solver_s=0.0,
             unknown_branches=0, hash_ambiguous=0, canary=None, selftest=None, functions=[], samples=[], notes=[],
             wall_s=0.0, infeasible_paths=0,
         )
@@ -219,7 +221,7 @@ def _smt(formula):
 
 
 def _query(ctx, formula, extra=()):
-    return ctx._check(z3.Not(formula), *extra)
+    return ctx._check(z3.Not(formula), *extra, fresh=True)
 
 
 def _hash_ambiguity(ctx):
@@ -334,12 +336,47 @@ def _record_violation(res, h, params, v, known, replay_dir):
                 pass
     if replay_dir:
         os.makedirs(replay_dir, exist_ok=True)
-        p = os.path.join(replay_dir, "%s_%s_%d.json" % (h.prop, h.name, len(res["violations"])))
+        tag = "".join(ch if ch.isalnum() else "_" for ch in json.dumps(params, sort_keys=True, default=str))[:60]
+        p = os.path.join(replay_dir, "%s_%s_%s_%d.json" % (h.prop, h.name, tag, len(res["violations"])))
         with open(p, "w") as f:
             json.dump({k: v[k] for k in v if k != "funcs"}, f, indent=1, default=repr)
         v["replay"] = p
     res["violations"].append(v)
     return None
+
+
+def _pinned_search(ctx, goal, tries=6, free=2, timeout_ms=3000):
+    """Look for a model of pc & goal with all but `free` inputs pinned to a random valid vector.
+    The pins only restrict the query, so a model found is a genuine model of the full formula;
+    it makes satisfiable (violated) obligations cheap where the unrestricted nlsat query is slow."""
+    rng = random.Random(len(ctx.pc) * 7 + len(ctx.obs))
+    names = [n for n in ctx.inputs]
+    if len(names) <= free:
+        return None
+    saved = ctx.qtimeout_ms
+    ctx.qtimeout_ms = timeout_ms
+    found = None
+    try:
+        for t in range(tries):
+            m0 = _sample_vector(ctx, rng)
+            if m0 is None:
+                continue
+            keep = set(rng.sample(names, free))
+            pins = []
+            for n in names:
+                if n in keep:
+                    continue
+                c = ctx.inputs[n]
+                pins.append(c == m0.eval(c, model_completion=True))
+            r, m = ctx._check(goal, *pins, fresh=True)
+            if os.environ.get("SYMX_DEBUG"):
+                print("pinned try", t, r, len(pins), file=sys.stderr)
+            if r == "sat":
+                found = m
+                break
+    finally:
+        ctx.qtimeout_ms = saved
+    return found
 
 
 def _discharge(res, h, params, ctx, canary, known, replay_dir):
@@ -356,15 +393,35 @@ def _discharge(res, h, params, ctx, canary, known, replay_dir):
             res["samples"].append(dict(harness=h.name, obligation=ob.name, negated_goal=_smt(z3.Not(f)),
                                        path_condition=[_smt(c) for c in ctx.pc[:12]]))
         extra = []
+        if ob.kind == "close" and ob.exact_formula is not None:
+            # exact identity first; it implies the tolerance form.  (i) rational-function normal form:
+            # the expanded numerator of got-want is the zero polynomial; (ii) otherwise ask the solver.
+            ea, eb = ob.exact_formula.children()
+            same, _z = ratnorm.identical(ea, eb)
+            if same:
+                res["discharged"] += 1
+                res["normalised_identities"] = res.get("normalised_identities", 0) + 1
+                continue
+            r0, _ = _query(ctx, ob.exact_formula, ())
+            if r0 == "unsat":
+                res["discharged"] += 1
+                res["exact_identities"] = res.get("exact_identities", 0) + 1
+                continue
         for _ in range(4):
-            r, m = _query(ctx, ob.formula, extra)
+            r = None
+            if ob.kind == "close" and ob.margin_formula is not None and not extra:
+                m = _pinned_search(ctx, z3.Not(ob.margin_formula))
+                if m is not None:
+                    r = "sat-pinned"
+            if r is None:
+                r, m = _query(ctx, ob.formula, extra)
             if r == "unsat":
                 res["discharged"] += 1
                 break
             if r == "unknown":
                 res["inconclusive"].append(ob.name + ": solver unknown")
                 break
-            if ob.kind == "close" and ob.margin_formula is not None:
+            if ob.kind == "close" and ob.margin_formula is not None and r != "sat-pinned":
                 r2, m2 = _query(ctx, ob.margin_formula, extra)
                 if r2 == "unsat":
                     res["inconclusive"].append(ob.name + ": deviation only inside the rounding band")
